@@ -33,6 +33,7 @@ type vsite struct {
 	h      *ssa.Function
 	hx     *TX
 	env    []*Term // helper parameters -> terms in fn's frame
+	fv     map[string]*Term // closure handed to a helper: free variables -> terms in fn's frame
 	depth  int
 }
 
@@ -114,8 +115,52 @@ func (c *FC) buildVirtualBody() {
 				delete(stack, h)
 			}
 		}
+		// function values this (helper) frame was handed and calls: closures written in fn,
+		// or further new helpers
+		if fn != c.fn {
+			for _, dc := range c.p.effects(fn).dyn {
+				ft := substTerm(markHelperCounters(dc.Fn), env)
+				rf, ok := c.p.resolveFuncTerm(ft)
+				if !ok || stack[rf.fn] || depth >= 3 {
+					continue
+				}
+				if rf.fn.Parent() == nil && !c.p.newHelper(rf.fn) {
+					continue // a known function: judged by its own rules
+				}
+				var henv []*Term
+				henv = append(henv, rf.pre...)
+				for _, a := range dc.Args {
+					henv = append(henv, substTerm(markHelperCounters(a), env))
+				}
+				vs := &vsite{call: dc.In, anchor: anchor, h: rf.fn, hx: c.p.tx(rf.fn), env: henv, fv: rf.fv, depth: depth + 1}
+				c.vsites = append(c.vsites, vs)
+				c.vof[rf.fn] = append(c.vof[rf.fn], vs)
+				stack[rf.fn] = true
+				walk(rf.fn, vs.hx, henv, anchor, depth+1, stack)
+				delete(stack, rf.fn)
+			}
+		}
 	}
 	walk(c.fn, c.x, nil, nil, 0, map[*ssa.Function]bool{c.fn: true})
+}
+
+// vinstrs: every instruction of the virtual body (fn's own, then each new helper's once).
+func (c *FC) vinstrs() []ssa.Instruction {
+	var out []ssa.Instruction
+	add := func(fn *ssa.Function) {
+		for _, b := range fn.Blocks {
+			out = append(out, b.Instrs...)
+		}
+	}
+	add(c.fn)
+	seen := map[*ssa.Function]bool{}
+	for _, vs := range c.vsites {
+		if !seen[vs.h] {
+			seen[vs.h] = true
+			add(vs.h)
+		}
+	}
+	return out
 }
 
 // termAt is the term of v at instruction at, in fn's frame, wherever at lives in the
@@ -133,7 +178,11 @@ func (c *FC) termAt(v ssa.Value, at ssa.Instruction) *Term {
 	}
 	var res *Term
 	for _, vs := range sites {
-		t := substTerm(markHelperCounters(vs.hx.Of(v, at)), vs.env)
+		t := vs.hx.Of(v, at)
+		if vs.fv == nil {
+			t = markHelperCounters(t) // (a closure written in fn has fn's own counters)
+		}
+		t = substTermFV(t, vs.env, vs.fv)
 		if res == nil {
 			res = t
 		} else if res.String() != t.String() {
@@ -303,6 +352,10 @@ func (c *FC) pos() string { return c.p.pos(c.fn.Pos()) }
 // callName gives the printed name of a call's callee as it appears in terms.
 func (c *FC) callName(call *ssa.Call) string {
 	if owner := call.Parent(); owner != c.fn && owner != nil {
+		if call.Call.IsInvoke() {
+			// the receiver of an interface call is a value: print it in fn's frame
+			return c.sh(c.termAt(call.Call.Value, call).String() + "." + call.Call.Method.Name())
+		}
 		return c.sh(callNameOf(c.p.tx(owner), call))
 	}
 	return c.sh(callNameOf(c.x, call))
